@@ -16,10 +16,11 @@ import numpy as np
 
 from .. import common as cm
 from .. import narrow as nw
+from .. import jolt_corr as jc
 
 PID = "C01"
 PROOF_FILES = ["theories/Props/C01.v", "theories/Checker/Narrow.v", "theories/Checker/Shapes.v",
-               "theories/Spec/Convex.v", "theories/Base/RVec.v"]
+               "theories/Spec/Convex.v", "theories/Base/RVec.v", "theories/Proofs/JoltLoop.v"]
 MAX_FLOAT = 1.7976931348623157e308
 CLIP = 100000.0
 
@@ -144,4 +145,78 @@ def run(tier, seed, replay=None):
     R.cov["input_histogram"] = hist
     for c, rr in list(zip(cases, results))[:3]:
         R.sample(dict(c1=c["c1"], c2=c["c2"], meta=c["meta"], result={k: rr[0].get(k) for k in ("d", "a", "b", "support_calls")}))
+    loop_correspondence(R, cases, tier)
+    if (R.corr_broken or R.proof_broken) and not R.violations and not replay:
+        targeted_search(R, tier)
     return R.finish()
+
+
+def run_traces(cases):
+    tc = [dict(c1=c["c1"], c2=c["c2"], fns=["distance"], kw=c["ops"][0].get("kw", {}), meta=c["meta"]) for c in cases]
+    nwk = min(cm.NCPU, max(1, len(tc) // 6))
+    chunks = [tc[i::nwk] for i in range(nwk)]
+    res = cm.run_impl_parallel(PID, "jolttrace", [dict(cases=ch) for ch in chunks], timeout=1500, tag="trace")
+    out = [None] * len(tc)
+    for w, (rr, ch) in enumerate(zip(res, chunks)):
+        if rr["status"] != "ok":
+            continue
+        for i, x in zip(range(w, len(tc), nwk), rr["result"]["results"]):
+            out[i] = x
+    keep = [(c, o) for c, o in zip(tc, out) if o is not None]
+    return [k[0] for k in keep], [k[1] for k in keep], len(tc) - len(keep)
+
+
+def loop_correspondence(R, cases, tier):
+    """Model/JoltLoop.v (binary64, inside coqc) replays the support points the implementation
+    obtained, iteration by iteration: search directions, iteration count, exit and (d, a, b)
+    must agree (harness/jolt_corr.py)."""
+    try:
+        tc, out, lost = run_traces(cases)
+        stats, mism = jc.compare(PID, tc, out, R.rng, lambda c: c["meta"]["L"])
+    except RuntimeError as e:
+        R.corr_broken.append(f"Jolt loop model could not be evaluated: {str(e)[:300]}")
+        return
+    stats["worker_lost"] = lost
+    R.cov["loop_correspondence"] = stats
+    R.cov["traces_validated_against_impl"] = stats.get("matched", 0)
+    if mism:
+        # second look with more perturbations before holding a difference against anyone
+        sub = sorted({m[0] for m in mism})
+        st2, mism2 = jc.compare(PID, [tc[i] for i in sub], [out[i] for i in sub], R.rng,
+                                lambda c: c["meta"]["L"], tag="joltcorr2", npert=24)
+        R.cov["loop_correspondence_second_look"] = st2
+        R.cov["loop_first_look_differences"] = [f"{fn}: {why[:400]}" for (_, fn, why) in mism[:5]]
+        for (j, fn, why) in mism2[:5]:
+            c = tc[sub[j]]
+            R.corr_broken.append(f"Model/JoltLoop.v vs gjk_distance_jolt ({fn}): {why[:600]} on c1={json.dumps(c['c1'])} c2={json.dumps(c['c2'])}")
+
+
+def targeted_search(R, tier):
+    """A proof or the correspondence no longer checks: look harder for a concrete input on which
+    the property itself fails (judged by dist_cert), so that the replay is a failing input."""
+    n = 1500 if tier == "quick" else 6000
+    cases = [make_case(R.rng, tier) for _ in range(n)]
+    results = nw.run_cases(PID, cases, tag="search")
+    exprs, idx = [], []
+    for i, (c, rr) in enumerate(zip(cases, results)):
+        r = rr[0]
+        if "exc" in r:
+            R.failure(f"gjk_distance_jolt raised {r['exc']}: {r.get('exc_msg', '')}", c, site="gjk_distance_jolt")
+            continue
+        if r["d"] >= MAX_FLOAT * 0.99 or r["a"] is None:
+            continue
+        if not (all(np.isfinite(r["a"])) and all(np.isfinite(r["b"])) and np.isfinite(r["d"])):
+            R.failure("non-finite result", c, site="gjk_distance_jolt")
+            continue
+        exprs.append(cert_expr(c, r))
+        idx.append(i)
+    try:
+        verdicts = cm.coq_eval_lines(PID, nw.COQ_HEADER + "From D3 Require Import Checker.Narrow.\n", exprs,
+                                     tag="searchcert", per_file=24, timeout=1500)
+    except RuntimeError:
+        verdicts = []
+    for i, v in zip(idx, verdicts):
+        if v.strip() != "true":
+            R.failure(f"dist_cert rejected the result d={results[i][0]['d']!r} (found by the targeted search)",
+                      dict(cases[i], result=results[i][0]), site="gjk_distance_jolt")
+    R.cov["targeted_search_cases"] = n
